@@ -14,6 +14,8 @@ func decodeTypeSection(enabledFeatures api.CoreFeatures, r *bytes.Reader) ([]was
 	vs, _, err := leb128.DecodeUint32(r)
 	if err != nil {
 		return nil, fmt.Errorf("get size of vector: %w", err)
+	} else if err = ensureVectorFits(r, vs); err != nil {
+		return nil, err
 	}
 
 	result := make([]wasm.FunctionType, vs)
@@ -38,6 +40,8 @@ func decodeImportSection(
 	vs, _, err := leb128.DecodeUint32(r)
 	if err != nil {
 		err = fmt.Errorf("get size of vector: %w", err)
+		return
+	} else if err = ensureVectorFits(r, vs); err != nil {
 		return
 	}
 
@@ -71,6 +75,8 @@ func decodeFunctionSection(r *bytes.Reader) ([]uint32, error) {
 	vs, _, err := leb128.DecodeUint32(r)
 	if err != nil {
 		return nil, fmt.Errorf("get size of vector: %w", err)
+	} else if err = ensureVectorFits(r, vs); err != nil {
+		return nil, err
 	}
 
 	result := make([]uint32, vs)
@@ -86,6 +92,8 @@ func decodeTableSection(r *bytes.Reader, enabledFeatures api.CoreFeatures) ([]wa
 	vs, _, err := leb128.DecodeUint32(r)
 	if err != nil {
 		return nil, fmt.Errorf("error reading size")
+	} else if err = ensureVectorFits(r, vs); err != nil {
+		return nil, err
 	}
 	if vs > 1 {
 		if err := enabledFeatures.RequireEnabled(api.CoreFeatureReferenceTypes); err != nil {
@@ -127,6 +135,8 @@ func decodeGlobalSection(r *bytes.Reader, enabledFeatures api.CoreFeatures) ([]w
 	vs, _, err := leb128.DecodeUint32(r)
 	if err != nil {
 		return nil, fmt.Errorf("get size of vector: %w", err)
+	} else if err = ensureVectorFits(r, vs); err != nil {
+		return nil, err
 	}
 
 	result := make([]wasm.Global, vs)
@@ -142,6 +152,8 @@ func decodeExportSection(r *bytes.Reader) ([]wasm.Export, map[string]*wasm.Expor
 	vs, _, sizeErr := leb128.DecodeUint32(r)
 	if sizeErr != nil {
 		return nil, nil, fmt.Errorf("get size of vector: %v", sizeErr)
+	} else if sizeErr = ensureVectorFits(r, vs); sizeErr != nil {
+		return nil, nil, sizeErr
 	}
 
 	exportMap := make(map[string]*wasm.Export, vs)
@@ -173,6 +185,8 @@ func decodeElementSection(r *bytes.Reader, enabledFeatures api.CoreFeatures) ([]
 	vs, _, err := leb128.DecodeUint32(r)
 	if err != nil {
 		return nil, fmt.Errorf("get size of vector: %w", err)
+	} else if err = ensureVectorFits(r, vs); err != nil {
+		return nil, err
 	}
 
 	result := make([]wasm.ElementSegment, vs)
@@ -189,6 +203,8 @@ func decodeCodeSection(r *bytes.Reader) ([]wasm.Code, error) {
 	vs, _, err := leb128.DecodeUint32(r)
 	if err != nil {
 		return nil, fmt.Errorf("get size of vector: %w", err)
+	} else if err = ensureVectorFits(r, vs); err != nil {
+		return nil, err
 	}
 
 	result := make([]wasm.Code, vs)
@@ -205,6 +221,8 @@ func decodeDataSection(r *bytes.Reader, enabledFeatures api.CoreFeatures) ([]was
 	vs, _, err := leb128.DecodeUint32(r)
 	if err != nil {
 		return nil, fmt.Errorf("get size of vector: %w", err)
+	} else if err = ensureVectorFits(r, vs); err != nil {
+		return nil, err
 	}
 
 	result := make([]wasm.DataSegment, vs)
